@@ -164,6 +164,7 @@ type TLCOpts struct {
 	HeapMB   int
 	Env      []string
 	Timeout  time.Duration
+	ParallelGC bool
 	Simulate string // e.g. "num=1000" ; adds -simulate
 	Depth    int
 	Extra    []string
@@ -184,7 +185,11 @@ func (c *Ctx) RunTLC(o TLCOpts) (*TLCResult, error) {
 		o.Timeout = 20 * time.Minute
 	}
 	meta := filepath.Join(c.Work, fmt.Sprintf("meta-%d", seq))
-	args := []string{"-XX:+UseParallelGC", fmt.Sprintf("-Xmx%dm", o.HeapMB), "-Xss64m", "-cp", tlaJars, "tlc2.TLC",
+	gc := "-XX:+UseParallelGC"
+	if o.Workers == 1 && !o.ParallelGC {
+		gc = "-XX:+UseSerialGC" // many single-worker JVMs run side by side: parallel GC threads only fight each other (4x slower, measured)
+	}
+	args := []string{gc, fmt.Sprintf("-Xmx%dm", o.HeapMB), "-Xss64m", "-cp", tlaJars, "tlc2.TLC",
 		"-workers", strconv.Itoa(o.Workers), "-metadir", meta, "-noGenerateSpecTE", "-seed", strconv.FormatInt(c.Seed, 10)}
 	if o.Cfg != "" {
 		args = append(args, "-config", o.Cfg)
@@ -347,6 +352,8 @@ type Family struct {
 	// Retries > 0: executions of a case are not deterministic (fresh random hash seeds per instance); a rejected
 	// case is confirmed / replayed by running that many fresh copies of it and needs one of them to be rejected.
 	Retries int
+	// ParallelGC: use the parallel collector for the validation JVMs (traces with very large events)
+	ParallelGC bool
 	// Run executes one case against the real code and emits its events (the first must be "reset").
 	Run func(cs json.RawMessage, w *TraceWriter)
 	// Sig names the failing shape of a rejected case (used for known-findings and de-duplication).
@@ -411,7 +418,7 @@ func (c *Ctx) validate(f *Family, cases []json.RawMessage, shards int) (*traceOu
 			if w.line == 0 {
 				return
 			}
-			res, err := c.RunTLC(TLCOpts{Module: f.Spec, Cfg: f.Cfg, Workers: 1, HeapMB: 3000, Env: append([]string{"VTRACE=" + w.path}, f.Env...)})
+			res, err := c.RunTLC(TLCOpts{Module: f.Spec, Cfg: f.Cfg, Workers: 1, HeapMB: 3000, ParallelGC: f.ParallelGC, Env: append([]string{"VTRACE=" + w.path}, f.Env...)})
 			emu.Lock()
 			defer emu.Unlock()
 			if err != nil {
@@ -460,8 +467,10 @@ func (c *Ctx) validate(f *Family, cases []json.RawMessage, shards int) (*traceOu
 		}(ws[s])
 	}
 	wg.Wait()
-	for _, w := range ws {
-		os.Remove(w.path)
+	if os.Getenv("VERIF_KEEP") == "" {
+		for _, w := range ws {
+			os.Remove(w.path)
+		}
 	}
 	return out, firstErr
 }
@@ -657,7 +666,9 @@ func (c *Ctx) Finish() {
 	b, _ := json.MarshalIndent(ev, "", " ")
 	os.MkdirAll(filepath.Join(verifRoot, "evidence"), 0o755)
 	os.WriteFile(filepath.Join(verifRoot, "evidence", c.Prop+".json"), append(b, '\n'), 0o644)
-	os.RemoveAll(c.Work)
+	if os.Getenv("VERIF_KEEP") == "" {
+		os.RemoveAll(c.Work)
+	}
 	if len(c.violations) > 0 {
 		fmt.Printf("RESULT %s: %d violation signature(s)\n", c.Prop, len(c.violations))
 		os.Exit(1)
